@@ -19,7 +19,7 @@
      elements, a separator before each (x_render); the run compares every reported XML path with that.  For XML there is
      no standard to compare the paths with (T_C08_paths_xml_example shows what they cannot tell apart). *)
 From BS Require Import Base UtfSpec UtfModel JxJsonSpec JxJsonProofs JxJsonSound JxXmlSpec JxXmlProofs JxXmlSound JxModel JxProofs JxMemberOrder
-  JxPathModel JxPathProofs JxXmlOptions JxDetect JxDetectProofs.
+  JxPathModel JxPathProofs JxXmlOptions JxDetect JxDetectProofs JxXmlDetect JxXmlDetectProofs.
 From Coq Require Import Permutation.
 Local Open Scope N_scope.
 
@@ -384,3 +384,44 @@ Theorem T_C08_stream_roundtrip :
      rj_read (rj_put (json_writer o) (json_print_cps d)) = Some (json_print_cps d)).
 Proof. split; [exact stream_roundtrip | split; [exact stream_roundtrip_ascii2 | exact stream_roundtrip_document]]. Qed.
 Print Assumptions T_C08_stream_roundtrip.
+
+(* ---------------------------------------------------------------- reading an XML stream: which encoding is it in *)
+
+(* JxXmlDetect.v: px_detect is pugixml's guess_buffer_encoding (load with encoding_auto, which the stream constructor of
+   the XML archive uses) as a function of the first four bytes: the five byte order marks, then '<' in UTF-32, then '<'
+   in UTF-16, else UTF-8 (nothing on fewer than four bytes).  pugixml's source is not installed: the function is written
+   from the documented behaviour and validated on every run (the extracted px_detect decides the encoding of every XML
+   stream load of the model driver; stage_xdetect adds cut, doubled-BOM, foreign-BOM and prefixed streams; a Python copy
+   is compared on every byte string).  Not modelled: the branch that honours an encoding pseudo-attribute naming latin1 -
+   the archive writes none (T_C08_xml_options_no_encoding_declaration).  px_read = decode the whole stream in the detected
+   scheme and skip one leading U+FEFF, as the parser does.
+
+   (a) with a byte order mark the encoding is recognised and the text is read back *)
+Theorem T_C08_xml_stream_detect_bom : forall e text, Forall scalar text -> match text with a :: _ => a <> 0 | [] => False end ->
+  px_detect (px_bom e ++ px_body e text) = e /\ px_read (px_bom e ++ px_body e text) = Some text.
+Proof. intros e text H1 H2. split; [apply px_detect_bom | apply px_read_bom]; assumption. Qed.
+Print Assumptions T_C08_xml_stream_detect_bom.
+
+(* (b) without one: every text that begins with '<' followed by a character other than U+0000 - every XML document
+       without leading white space, in particular one that begins with the XML declaration - is recognised in all five
+       encodings and read back.  Where it is not: white space before the first '<' in UTF-16 / UTF-32 *)
+Theorem T_C08_xml_stream_detect_lt : forall e text, Forall scalar text -> starts_lt text = true ->
+  px_detect (px_body e text) = e /\ px_read (px_body e text) = Some text.
+Proof. intros e text H1 H2. split; [apply px_detect_lt | apply px_read_lt]; assumption. Qed.
+Print Assumptions T_C08_xml_stream_detect_lt.
+
+Example T_C08_xml_stream_detect_refuted :
+  px_detect (px_body pe_utf16_le [32; 60; 97; 47; 62]) = pe_utf8 /\ px_read (px_body pe_utf16_le [32; 60; 97; 47; 62]) <> Some [32; 60; 97; 47; 62].
+Proof. exact px_detect_refuted. Qed.
+Print Assumptions T_C08_xml_stream_detect_refuted.
+
+(* (c) composed with T_C08_xml_options_passed: what the archive writes to a stream begins with the XML declaration, so for
+       EVERY option setting - five encodings, with and without BOM, formatted or not - and every document the detected
+       encoding is the configured one and detection + decoding gives back exactly the text that was written.  (J47 stands:
+       without a BOM the UTF-16 / UTF-32 output is not self-describing for a conformant XML processor; pugixml's own
+       detection reads it.)  The premise says the spelling of tags and text (tag, arbitrary) yields scalar values *)
+Theorem T_C08_xml_stream_roundtrip : forall tag o root, so_stream o = true -> Forall scalar (px_doc tag (xml_writer o) root) ->
+  px_detect (px_put tag (xml_writer o) root) = to_pugi_utf (so_enc o) /\
+  px_read (px_put tag (xml_writer o) root) = Some (px_doc tag (xml_writer o) root).
+Proof. intros tag o root H1 H2. split; [apply xml_stream_detected | apply xml_stream_roundtrip]; assumption. Qed.
+Print Assumptions T_C08_xml_stream_roundtrip.
